@@ -152,6 +152,14 @@ def r21_2(ctx):
         rf = [i for i, e in enumerate(ev) if e.kind == "call" and atomic_op(e) == "store" and sv_field_path(e.obj)[-1:] == ["m_freeListRefs"]]
         ok = nxt and rf and nxt[-1] < hc[0] and rf[-1] < hc[0] and ev[nxt[-1]].args[0] == ev[hc[0]].args[0] and ev[rf[-1]].args[0] == C(1) and ev[hc[0]].args[1] == node
         ctx.check(bool(ok), "R21.2", A, "the node's next (= expected head) and count (= 1) are set before the head CAS publishes it", ev[hc[0]].node, detail=R, sig="add-init")
+        if nxt and rf:
+            # the count leaving zero is what lets a stale getter (one that loaded this node as head earlier) take a reference and read the link:
+            # the link must be written first and the count store must publish it (release)
+            order = ev[rf[-1]].args[1] if len(ev[rf[-1]].args) > 1 else None
+            rel = isinstance(order, tuple) and order[:1] == ("c",) and order[1] in (3, 4, 5)
+            ctx.check(nxt[-1] < rf[-1] and rel, "R21.2", A, "the node's count leaves zero only after its next link was written, with a release store", ev[rf[-1]].node,
+                      detail="link store before count store: %s, count store is a release store: %s. A getter that still holds this node as a stale head may increment the "
+                      "count the moment it is non-zero and then reads the link: it must see the new one. %s" % (nxt[-1] < rf[-1], rel, R), sig="add-link-before-count")
         if _won(p, ev[hc[0]]) is False:
             fa = [e for e in ev[hc[0]:] if e.kind == "call" and atomic_op(e) == "fetch_add" and sv_field_path(e.obj)[-1:] == ["m_freeListRefs"]]
             ok2 = len(fa) == 1 and fa[0].args[0] == C(SHOULD - 1)
